@@ -9,6 +9,12 @@ split into items by the harness' own MessagePack reader).  The vocabulary of the
 conclusions (`Approx`, `RawEq`, `Weaker`, `numBack`) and of the hypotheses (`Fits`,
 `wfValue`, `SetsRebuild`) is in `CtyModel/MsgpackSpec.lean`.
 
+The refinement builder's `Value.Equals` on numbers is a parameter of `Refine.lean`
+(`EqOracle`); `unmarshal` here is instantiated with the exact oracle (`partialOracle`:
+exact comparison, `.unmodelled` where the code's answer could depend on the decimal
+text) — the driver also runs it with `textOracle`, what the code does (`mp.unmarshal` /
+`mp.unmarshalx`).
+
 External functions are the fields of `Msgpack.Ext` (Unicode normalisation,
 `ctystrings.SafeKnownPrefix`, `cty.SetVal`); nothing is assumed of them except
 what a hypothesis states: `Fits` checks, for the given `E`, that strings and keys
@@ -23,9 +29,18 @@ finding) and the strongest partial theorem `roundtrip_covers_partial` (side cond
 -/
 import CtyModel.Lemmas.MsgpackKnown
 import CtyModel.Lemmas.MsgpackMarks
+import CtyModel.Generated.Limits
 namespace CtyModel
 namespace C16
 open Msgpack Refine
+
+/-! ## Limits -/
+
+/-- The two limits the model uses (`maxPrefixLength := 256` in marshalUnknownValue, the
+`extLen > 1024` test in unmarshalUnknownValue) are the ones regenerated from the Go
+source on every check: a change of either in /repo breaks this theorem. -/
+theorem limits_are_source :
+    maxPrefixLength = Generated.msgpackMaxPrefixLength ∧ maxExtLen = Generated.msgpackMaxExtLen := by decide
 
 /-! ## Numbers -/
 
